@@ -749,8 +749,10 @@ EXPLANATION = (
     'it too or does not leave the remembered name pointing at that file, so a tmp file this session does not own is never'
     ' renamed. R1 also accepts the remove of what a failed exclusive create of the same call left behind when an access()'
     ' probe taken before the create says the name was free. R7 also: a refusal made before any store to the identity '
-    'fields is harmless. Decides the protocol shape on all paths, NOT that HDF5 flushed every byte (see C10) nor page-'
-    'cache loss.')
+    'fields is harmless. R8: in the constructor a comparison of strlen(directory) with the size of the path buffers, '
+    'whose failing side returns NULL, dominates the store of the directory (the paths R1 reasons about are assembled with'
+    ' strcpy / strcat in fixed buffers). Decides the protocol shape on all paths, NOT that HDF5 flushed every byte (see '
+    'C10) nor page-cache loss.')
 TECHNIQUE = ('clang JSON AST; string provenance (with helper inlining); HDF5 handle typestate over the CFG; who-may-call table of file-system primitives; regular-language emptiness')
 ASSUMPTIONS = ["POSIX rename within a directory is atomic", "a file is complete once H5Fclose succeeded",
                "H5F_ACC_EXCL fails on an existing file", "clang 14 AST and CPython ast are faithful"]
